@@ -46,7 +46,16 @@ func (w *World) sharingScan() {
 	sort.Slice(refs, func(a, b int) bool { return refs[a].c.DataPtr < refs[b].c.DataPtr })
 	for a := 0; a < len(refs); a++ {
 		ra := refs[a]
-		endA := ra.c.DataPtr + uintptr(ra.c.Cap*ra.c.ElemSize)
+		// live data decides sharing between bitmaps; the spare capacity matters only for the
+		// chunk that follows immediately in memory (arena-backed views make every capacity
+		// reach to the end of the arena: scanning by capacity would be quadratic)
+		endA := ra.c.DataPtr + uintptr(ra.c.Len*ra.c.ElemSize)
+		if a+1 < len(refs) && refs[a+1].slot == ra.slot && refs[a+1].c.ContainerPtr != ra.c.ContainerPtr &&
+			refs[a+1].c.DataPtr >= endA && refs[a+1].c.DataPtr < ra.c.DataPtr+uintptr(ra.c.Cap*ra.c.ElemSize) {
+			if w.selfOverlapProbe(ra, refs[a+1]) {
+				return
+			}
+		}
 		// region-backed and unflagged?
 		if !ra.c.NeedCOW {
 			for ri, reg := range w.Regs {
@@ -62,9 +71,6 @@ func (w *World) sharingScan() {
 		for b := a + 1; b < len(refs) && refs[b].c.DataPtr < endA; b++ {
 			rb := refs[b]
 			if ra.slot == rb.slot {
-				if ra.c.ContainerPtr != rb.c.ContainerPtr && w.selfOverlapProbe(ra, rb) {
-					return
-				}
 				continue
 			}
 			w.probe("shared-backing-seen")
